@@ -1,10 +1,17 @@
 //! E4 — runtime explorers with in-Rust oracles (static sources; only `sylvia` comes from /repo).
 #![allow(clippy::all, deprecated)]
+// one cargo feature per suite: when the tree breaks the API one suite uses, the others still build (vlib/e4.py)
+#[cfg(feature = "s_merge")]
 mod merge;
+#[cfg(feature = "s_intoresp")]
 mod intoresp;
+#[cfg(feature = "s_remote")]
 mod remote;
+#[cfg(feature = "s_builders")]
 mod builders;
+#[cfg(feature = "s_history")]
 mod history;
+#[cfg(feature = "s_history")]
 mod history_progs;
 
 fn main() {
@@ -12,10 +19,15 @@ fn main() {
     let args: Vec<String> = std::env::args().collect();
     let tier = args.get(2).map(|s| s.as_str()).unwrap_or("quick");
     let out = match args.get(1).map(|s| s.as_str()) {
+        #[cfg(feature = "s_merge")]
         Some("merge") => merge::run(tier),
+        #[cfg(feature = "s_intoresp")]
         Some("intoresp") => intoresp::run(tier),
+        #[cfg(feature = "s_remote")]
         Some("remote") => remote::run(tier),
+        #[cfg(feature = "s_builders")]
         Some("builders") => builders::run(tier),
+        #[cfg(feature = "s_history")]
         Some("history") => history::run(tier),
         _ => {
             eprintln!("usage: rt merge|intoresp|remote|builders quick|thorough");
